@@ -31,6 +31,11 @@ def cases(tier, rng, dist):
                     if not ro and (n + k) % 4:
                         continue
                     yield {"lr": "bern", "po": prm[0], "pa": prm[1], "alpha": prm[2], "beta": prm[3], "xs": list(xs), "ro": ro}
+    # long samples in narrow dtypes: the number of successes exceeds what int8 / uint8 can hold
+    for _ in range(8 if tier == "quick" else 60):
+        n = rng.randint(260, 400)
+        yield {"lr": "bern", "po": "1/2", "pa": rng.choice(["13/25", "12/25"]), "alpha": "1/20", "beta": "1/20",
+               "xs": [1 if rng.random() < 0.7 else 0 for _ in range(n)], "ro": False, "dtype": rng.choice(["int8", "uint8", "bool", "int64", "list"])}
     vals = ["1/2", "3/2", "1", "3/4", "5/4", "1/4", "2", "0", "149/100", "51/100"]
     for _ in range(600 if tier == "quick" else 6000):
         n = rng.randint(0, 7)
@@ -49,11 +54,14 @@ def run(c):
         def lr(x):
             log.append(list(x)); return tab[len(x)]
     xs = list(c["xs"])
+    if c.get("dtype", "list") != "list":
+        xs = np.array(c["xs"], dtype=c["dtype"])
     r = guarded(lambda: sprt(lr, float(Fraction(c["alpha"])), float(Fraction(c["beta"])), xs, c["ro"]))
     if r[0] != "ok":
         return {"ok": False, "err": list(r)}
     (concl, ts) = r[1]
-    return {"ok": True, "concl": [bool(concl[0]), bool(concl[1])], "ts": float(ts), "log": log, "unmodified": xs == c["xs"]}
+    log = [[int(v) for v in l] for l in log]
+    return {"ok": True, "concl": [bool(concl[0]), bool(concl[1])], "ts": float(ts), "log": log, "unmodified": [int(v) for v in xs] == c["xs"]}
 
 
 def spec(c):
